@@ -298,6 +298,10 @@ def run(ctx):
     _stress(ctx, "concurrent first getTransport of fresh TLS names (all callers must share the cached transport)",
             [{"case": "transport1", "k": 16, "rounds": 6000 if quick else 40000, "seed": ctx.seed}])
 
+    # ---- 4. code -> spec: free-running executions of the DNS cache against DNSCache_trace.tla ----
+    from checks.c19_trace import run_dnstrace
+    run_dnstrace(ctx)
+
     ctx.exhaustive = False
     ctx.notes["rule"] = (
         "designs: every interleaving of 2-3 callers over 2-3 hosts / servers / TLS names, size 1-2, with expiry, reaping and "
@@ -311,6 +315,9 @@ def run(ctx):
 
 def replay(ctx, rp):
     """bin/check C19 --replay <file>: re-execute a stored disagreement under -race."""
+    if rp["key"].startswith("C19/dnstrace/"):
+        from checks.c19_trace import replay_dnstrace
+        return replay_dnstrace(ctx, dict(rp, _path=os.path.abspath(sys.argv[-1])))
     pl = rp["payload"]
     recs = pl.get("records") or [pl["record"]]
     rc, out, err = _run_raw(ctx, pl["harness"], recs)
